@@ -186,3 +186,148 @@ Example C20_demo_order :
   a_missing (analyze (rev g_demo)) = a_missing (analyze g_demo) /\
   a_terminal (analyze (rev g_demo)) = rev (a_terminal (analyze g_demo)).
 Proof. vm_compute. split; reflexivity. Qed.
+
+(** * The text level: node names of any content
+
+    [dot_id], [mermaid_text], [mermaid_nid] (Model/ToolsText.v) are dotID,
+    mermaidText and the n%d ids of tools/dot.go, tools/mermaid.go, byte by
+    byte.  A name is any sequence of bytes (quotes, backslashes, hashes,
+    newlines, bytes that are not UTF-8 ...).  Two different names never get
+    the same identifier, and a name never ends the quoted string it is
+    written in: a reader that starts at the opening quote stops exactly at the
+    closing quote that the renderer wrote, whatever follows. *)
+From Sheens Require Import Corr.ToolsTextCorr Proofs.ToolsTextLink.
+
+Theorem C20_dot_ids_injective : forall a b : string, dot_id a = dot_id b -> a = b.
+Proof. exact dot_id_injective. Qed.
+Print Assumptions C20_dot_ids_injective.
+
+Theorem C20_dot_id_reads_back : forall name : string, dot_unquote (dot_id name) = Some name.
+Proof. exact dot_unquote_id. Qed.
+Print Assumptions C20_dot_id_reads_back.
+
+(** [dot_quoted_ok t]: [t] begins and ends with a quote, every quote between
+    them stands behind an odd number of backslashes and the last one behind
+    an even number *)
+Theorem C20_dot_id_stays_quoted : forall name : string, dot_quoted_ok (dot_id name) = true.
+Proof. exact dot_id_quoted_ok. Qed.
+Print Assumptions C20_dot_id_stays_quoted.
+
+Theorem C20_dot_id_ends_where_written :
+  forall name rest : string, dot_scan (dot_id name ++ rest) = Some (name, rest).
+Proof. exact dot_scan_id. Qed.
+Print Assumptions C20_dot_id_ends_where_written.
+
+Theorem C20_dot_edge_heads_injective :
+  forall a b a' b' : string, dot_edge_head a b = dot_edge_head a' b' -> a = a' /\ b = b'.
+Proof. exact dot_edge_head_injective. Qed.
+Print Assumptions C20_dot_edge_heads_injective.
+
+(** read by the rules of Graphviz' own scanner (which keeps a doubled
+    backslash as it is) the identifier is the name with every backslash
+    doubled: still one token, still a different one for every name *)
+Theorem C20_dot_id_graphviz_reading :
+  (forall name rest : string, gv_scan (dot_id name ++ rest) = Some (gv_name name, rest)) /\
+  (forall a b : string, gv_name a = gv_name b -> a = b).
+Proof. exact (conj gv_scan_id gv_name_injective). Qed.
+Print Assumptions C20_dot_id_graphviz_reading.
+
+Theorem C20_mermaid_texts_injective : forall a b : string, mermaid_text a = mermaid_text b -> a = b.
+Proof. exact mermaid_text_injective. Qed.
+Print Assumptions C20_mermaid_texts_injective.
+
+Theorem C20_mermaid_text_reads_back : forall name : string, mermaid_untext (mermaid_text name) = Some name.
+Proof. exact mermaid_untext_text. Qed.
+Print Assumptions C20_mermaid_text_reads_back.
+
+(** no quote at all in the text, so the label between its two quotes is one
+    quoted string *)
+Theorem C20_mermaid_text_stays_quoted :
+  forall name : string,
+  has_char dquote (mermaid_text name) = false /\ mermaid_quoted_ok (mermaid_label name) = true.
+Proof. exact (fun name => conj (mermaid_text_no_quote name) (mermaid_label_quoted_ok name)). Qed.
+Print Assumptions C20_mermaid_text_stays_quoted.
+
+Theorem C20_mermaid_label_ends_where_written :
+  forall name rest : string, mermaid_scan (mermaid_label name ++ rest) = Some (name, rest).
+Proof. exact mermaid_scan_label. Qed.
+Print Assumptions C20_mermaid_label_ends_where_written.
+
+Theorem C20_mermaid_ids_injective : forall a b : nat, mermaid_nid a = mermaid_nid b -> a = b.
+Proof. exact mermaid_nid_injective. Qed.
+Print Assumptions C20_mermaid_ids_injective.
+
+(** an id is the letter n and at least one digit, nothing else *)
+Theorem C20_mermaid_id_shape :
+  forall num : nat,
+  exists ds, mermaid_nid num = String "n"%char ds /\ ds <> ""%string /\ all_chars is_digit ds = true.
+Proof. exact mermaid_nid_shape. Qed.
+Print Assumptions C20_mermaid_id_shape.
+
+(** on top of the statement level: the node statements written for a graph
+    carry pairwise different identifiers (ids, label texts) *)
+Theorem C20_dot_rendered_ids_distinct :
+  forall g l, NoDup (names g) -> dot g = Done l -> NoDup (map dot_id (item_nodes (dot_items l))).
+Proof. exact dot_rendered_ids_distinct. Qed.
+Print Assumptions C20_dot_rendered_ids_distinct.
+
+Theorem C20_mermaid_rendered_ids_distinct :
+  forall g, NoDup (names g) ->
+  exists m, mermaid g = Done m /\
+    NoDup (map (fun p => mermaid_nid (fst p)) (mer_table m)) /\
+    NoDup (map (fun p => mermaid_text (snd p)) (mer_table m)).
+Proof. exact mermaid_rendered_ids_distinct. Qed.
+Print Assumptions C20_mermaid_rendered_ids_distinct.
+
+(** the oracle of the correspondence run (decided on the Go text alone)
+    accepts only texts that determine the name, and accepts the model's *)
+Theorem C20_text_oracle_sound :
+  forall name dot mer : string,
+  tt_ok (mk_ttcase name dot mer) = true ->
+  dot_unquote dot = Some name /\ dot_quoted_ok dot = true /\
+  mermaid_untext mer = Some name /\ has_char dquote mer = false.
+Proof. exact tt_ok_sound. Qed.
+Print Assumptions C20_text_oracle_sound.
+
+Theorem C20_text_model_passes_oracle :
+  forall name : string,
+  tt_ok (mk_ttcase name (dot_id name) (mermaid_text name)) = true /\
+  tt_agrees (mk_ttcase name (dot_id name) (mermaid_text name)) = true.
+Proof. exact tt_model_passes. Qed.
+Print Assumptions C20_text_model_passes_oracle.
+
+(** what is NOT true of the Graphviz text: the label of a node statement,
+    label=<...>, holds the raw name; read by the nesting rule of Graphviz'
+    scanner the name > ends it early and the name < never ends it.  True
+    only for names without angle brackets. *)
+Theorem C20_dot_label_stays_inside_refuted : ~ dot_label_stays_inside.
+Proof. exact dot_label_stays_inside_refuted. Qed.
+Print Assumptions C20_dot_label_stays_inside_refuted.
+
+Theorem C20_dot_label_plain_stays_inside :
+  forall (name rest : string) (d : nat),
+  has_char langle name = false -> has_char rangle name = false ->
+  html_scan (S d) (dot_label_name name ++ String rangle rest) =
+  match d with O => Some rest | S d' => html_scan (S d') rest end.
+Proof. exact dot_label_stays_inside_plain. Qed.
+Print Assumptions C20_dot_label_plain_stays_inside.
+
+(** non-vacuity: a name with a quote, two backslashes before a quote, a
+    hash, a newline, a tab, a closing angle bracket, two bytes >= 128 (UTF-8
+    for e-acute) and a backslash at the end *)
+Example C20_text_demo :
+  nasty_name = sb [97; 34; 92; 92; 34; 35; 10; 9; 62; 195; 169; 92]%Z /\
+  dot_id nasty_name =
+    sb [34; 97; 92; 34; 92; 92; 92; 92; 92; 34; 35; 10; 9; 62; 195; 169; 92; 92; 34]%Z /\
+  dot_unquote (dot_id nasty_name) = Some nasty_name /\
+  dot_quoted_ok (dot_id nasty_name) = true /\
+  dot_scan (dot_id nasty_name ++ " -> x")%string = Some (nasty_name, " -> x"%string) /\
+  mermaid_text nasty_name =
+    ("a#quot;" ++ sb [92; 92]%Z ++ "#quot;#35;" ++ sb [10; 9; 62; 195; 169; 92]%Z)%string /\
+  mermaid_untext (mermaid_text nasty_name) = Some nasty_name /\
+  mermaid_nid 120 = "n120"%string /\
+  (* an unescaped rendering would break: the raw name between quotes is not one quoted string *)
+  dot_quoted_ok (String dquote (nasty_name ++ String dquote EmptyString)) = false /\
+  (* and two different names would collapse if backslashes were not escaped *)
+  dot_id (sb [92; 34]%Z) <> dot_id (sb [34]%Z).
+Proof. vm_compute. repeat split. discriminate. Qed.
